@@ -20,7 +20,7 @@ class SecurityCheck:
                 return Left(TrashDirDoesNotHaveParent())
             if not self.fs.isdir(parent):
                 return Left(TrashDirCannotBeCreatedBecauseParentIsFile())
-            if self.fs.islink(parent):
+            if self.fs.islink_or_raise(parent):
                 return Left(TrashDirIsNotSecureBecauseSymLink())
             if not self.fs.has_sticky_bit(parent):
                 return Left(TrashDirIsNotSecureBecauseNotSticky())
